@@ -1,6 +1,7 @@
 package h
 
 import (
+	"encoding/json"
 	"flag"
 	"fmt"
 	"os"
@@ -77,6 +78,12 @@ func corpusDirs(pkg, target string) []string {
 // harness/ (where the committed corpus lives), dec turns fuzzer bytes into a case (false = the bytes do not denote one),
 // seeds are built-in inputs.
 func FuzzProp[K any](f *testing.F, pkg string, p Prop[K], dec func([]byte) (K, bool), seeds [][]byte) {
+	FuzzProp2(f, pkg, p, nil, dec, seeds)
+}
+
+// FuzzProp2: fast, when not nil, is the oracle used inside the campaign (in-process, no bookkeeping); everything the
+// campaign keeps is judged by p.Run in the corpus pass.
+func FuzzProp2[K any](f *testing.F, pkg string, p Prop[K], fast func(K) *Result, dec func([]byte) (K, bool), seeds [][]byte) {
 	target := f.Name()
 	if C.ReplayIn != "" {
 		replay(f, p)
@@ -122,7 +129,11 @@ func FuzzProp[K any](f *testing.F, pkg string, p Prop[K], dec func([]byte) (K, b
 			if !ok {
 				return
 			}
-			if r := safeRun(p, c); r.Err != "" {
+			q := p
+			if fast != nil {
+				q.Run = fast
+			}
+			if r := safeRun(q, c); r.Err != "" {
 				t.Fatalf("%s", r.Err)
 			}
 		})
@@ -158,4 +169,23 @@ var quiet bool
 // WriteCorpusFile writes b in go's corpus format.
 func WriteCorpusFile(path string, b []byte) error {
 	return os.WriteFile(path, []byte(fmt.Sprintf("go test fuzz v1\n[]byte(%s)\n", strconv.Quote(string(b)))), 0o644)
+}
+
+// Warm runs the witnesses of the open findings of another sub-property, silently, so that their exclusion tags are on
+// in a process that does not run that sub-property (a worker of a fuzz campaign, the corpus pass).
+func Warm[K any](p Prop[K]) {
+	for _, f := range fnd {
+		if f.Sub != p.Name || len(f.Witness) == 0 || f.Status != "open" || f.Exclusion == "" {
+			continue
+		}
+		var c K
+		if err := json.Unmarshal(f.Witness, &c); err != nil {
+			continue
+		}
+		if r := safeRun(p, c); r.Err != "" {
+			mu.Lock()
+			excl[f.Exclusion] = true
+			mu.Unlock()
+		}
+	}
 }
